@@ -4,8 +4,9 @@ C13 — cancelling a cancel-safe operation loses, duplicates and corrupts nothin
 
 The full property is an equivalence between two executions of the whole machine; it is decided on
 every run by the twin programs of the correspondence check (the same program with and without a
-cancellation at every await index, compared on wire bytes and delivered messages). What is proved
-here are the local facts that make the cancel-safe await points safe, for every state:
+cancellation at every await index, compared on wire bytes and delivered messages), and proved as a
+simulation of the machine in `Theorems/C13Machine.lean`. What is proved here are the local facts that
+make the cancel-safe await points safe, for every state:
 
  * cancelling drops the suspended future and nothing else — session, transports, connection, handles
    are untouched (`C13_cancel_only_drops_the_future`);
